@@ -37,9 +37,11 @@ def search(rep: C.Report, tier: str, broken):
     import models
     r = C.rng("C10")
     nT = 60 if tier == "quick" else 400
-    for params in _models(tier):
+    for mi, params in enumerate(_models(tier)):
         for TnFrac in ((0.6,) if tier == "quick" else (0.3, 0.6, 0.85)):
-            th, model, info = models.make_thermo("toy1", params, TnFrac=TnFrac)
+            # every other model: only an APPROXIMATE broken-phase location is handed to Thermodynamics (resolved internally)
+            gerr = (0.0, 0.2, -0.12)[mi % 3]
+            th, model, info = models.make_thermo("toy1", params, TnFrac=TnFrac, guess_err=gerr)
             ref = info["ref"]
             for ph in ("HighT", "LowT"):
                 p, dp, ddp = getattr(th, "p" + ph), getattr(th, "dp" + ph), getattr(th, "ddp" + ph)
@@ -54,6 +56,9 @@ def search(rep: C.Report, tier: str, broken):
                 Ts += [r.uniform(0.8 * TMin, 1.2 * TMax) for _ in range(nT // 3)]
                 Ts += [r.uniform(TMin, TMax) for _ in range(nT // 3)]
                 Ts += [TMin, TMax, TMin * (1 - 1e-9), TMin * (1 + 1e-9), TMax * (1 - 1e-9), TMax * (1 + 1e-9)]
+                # the nucleation temperature is where the tracing starts: the table node there and its neighbourhood
+                Tn_, dT_ = th.Tnucl, info["dT"]
+                Ts += [Tn_, Tn_ + 0.3 * dT_, Tn_ - 0.3 * dT_, Tn_ + 1.7 * dT_, Tn_ - 1.7 * dT_, Tn_ + 6 * dT_, Tn_ - 6 * dT_]
                 for T in Ts:
                     region = "below" if T < TMin else ("above" if T > TMax else "inside")
                     rep.case(key=(tuple(sorted(params.items())), TnFrac, ph, region, round(T, 3)))
@@ -85,7 +90,7 @@ def search(rep: C.Report, tier: str, broken):
                             bad.append(("p = -Veff(min)", P, ex))
                     for b in bad:
                         rep.violation(f"EOS identity {b[0]} fails in {ph} at T={T} ({region})",
-                                      {"model": params, "TnFrac": TnFrac, "phase": ph, "T": T, "region": region,
+                                      {"model": params, "TnFrac": TnFrac, "guess_err": gerr, "phase": ph, "T": T, "region": region,
                                        "identity": b[0], "values": b[1:], "TMin": TMin, "TMax": TMax,
                                        "how": "harness/models.make_thermo(toy1, model, TnFrac) then Thermodynamics methods"},
                                       finding_key=f"C10:{b[0]}:{region}")
